@@ -123,7 +123,8 @@ def get_type_graph(t: type) -> graphlib.TopologicalSorter[TypeNode]:
         predecessors = []
         for var, child in _level(parent_unwrapped):
             # If no type was provided, there's no reason to do further processing.
-            if child in (constants.empty, typing.Any):
+            #   The same goes for the `...` of a variadic tuple.
+            if child in (constants.empty, typing.Any, ...):
                 continue
 
             unwrapped = inspection.unwrap(child)
